@@ -311,8 +311,16 @@ def main(argv=None):
     env['ASAN_OPTIONS'] = 'detect_leaks=0:exitcode=99:abort_on_error=0:allocator_may_return_null=1:log_path=' + asan_log
   if a.replay:
     cmd += ['--replay', a.replay]
-  p = subprocess.run(cmd, cwd=VERIF, env=env)
-  rc = p.returncode
+  # own process group: grandchildren that outlive the check (e.g. llvm-symbolizer processes of ASan workers, which would
+  # keep inherited stdout/stderr pipes of our caller open) are killed when the check is over
+  pr = subprocess.Popen(cmd, cwd=VERIF, env=env, start_new_session=True)
+  try:
+    rc = pr.wait()
+  finally:
+    try:
+      os.killpg(pr.pid, signal.SIGKILL)
+    except (ProcessLookupError, PermissionError):
+      pass
   if rc < 0 or rc > 2:
     # child died: crash in code under test (or harness). Report with the journal if the check kept one.
     d = os.path.join(WORK, 'violations', pid)
